@@ -440,7 +440,7 @@ func c20Stream(c *Ctx) {
 			}
 			var saltV, prefixV ssa.Value
 			allInstrs(f, func(ins ssa.Instruction) {
-				if call, isC := ins.(*ssa.Call); isC && strings.HasSuffix(guard.CalleeName(&call.Call), ").deriveKey") && len(call.Call.Args) >= 2 {
+				if call, isC := ins.(*ssa.Call); isC && (strings.HasSuffix(guard.CalleeName(&call.Call), ").deriveKey") || strings.HasSuffix(guard.CalleeName(&call.Call), ").deriveKeys")) && len(call.Call.Args) >= 2 {
 					saltV = call.Call.Args[1]
 				}
 				if _, fld, val, isS := guard.StoreField(ins); isS && fld == "NoncePrefix" {
@@ -452,6 +452,11 @@ func c20Stream(c *Ctx) {
 				// and they are different buffers
 				if guard.Strip(saltV) == guard.Strip(prefixV) {
 					okPrefix = false
+				}
+				if !(okSalt && okPrefix) {
+					// range form: both are disjoint ranges of one buffer, inside the range a
+					// single CSPRNG fill covers, with no later write into the buffer
+					okSalt, okPrefix = c20RangesFilled(f, saltV, prefixV)
 				}
 			}
 		}
@@ -503,50 +508,7 @@ func c20Ephemeral(c *Ctx) {
 			r.Ok("C20.ephemeral", "C20.ephemeral/"+fid+"/no shared state", p.FuncPos(f), "receiver absent from the write set")
 		}
 		// (2) a random source is drawn on every success path
-		var srcs []*ssa.Call
-		allInstrs(f, func(ins ssa.Instruction) {
-			call, ok := ins.(*ssa.Call)
-			if !ok {
-				return
-			}
-			nm := guard.CalleeName(&call.Call)
-			isSrc := false
-			for _, arg := range call.Call.Args {
-				if isRandReader(arg) {
-					isSrc = true
-				}
-			}
-			if strings.HasSuffix(nm, ".Encapsulate") || strings.HasSuffix(nm, "random.GetRandomBytes") || nm == "crypto/rand.Read" || strings.HasSuffix(nm, "GeneratePrivateKeyX25519") || strings.HasSuffix(nm, "GenerateECDHKeyPair") {
-				isSrc = true
-			}
-			// generator reached through a function-typed field or package variable (test hook): its
-			// production value must be a real generator
-			if !isSrc && call.Call.StaticCallee() == nil && !call.Call.IsInvoke() {
-				if _, fld, isF := guard.FieldOf(call.Call.Value); isF && strings.Contains(strings.ToLower(fld), "generate") {
-					isSrc = true
-				}
-				if u, isU := call.Call.Value.(*ssa.UnOp); isU {
-					if g, isG := u.X.(*ssa.Global); isG && hookIsGenerator(p, g) {
-						isSrc = true
-					}
-				}
-			}
-			if isSrc {
-				srcs = append(srcs, call)
-			}
-		})
-		fresh := len(guard.SuccessReturns(f)) > 0
-		for _, ret := range guard.SuccessReturns(f) {
-			ok := false
-			for _, call := range srcs {
-				if call.Block() == ret.Block() || call.Block().Dominates(ret.Block()) {
-					ok = true
-				}
-			}
-			if !ok {
-				fresh = false
-			}
-		}
+		fresh := c20DrawsFresh(p, f, 0)
 		r.Check(fresh, "C20.ephemeral", "C20.ephemeral/"+fid+"/fresh key", p.FuncPos(f), "encapsulate has a success path that draws no fresh randomness (crypto/rand reader, rand.Read, Encapsulate())", "a random draw dominates every success return")
 	}
 	r.Counts["encapsulate_functions"] = n
@@ -705,4 +667,175 @@ func c20Keys(c *Ctx) {
 func hasConstArg(call *ssa.Call) bool {
 	_, ok := guard.ConstInt(call.Call.Args[0])
 	return ok
+}
+
+// c20RangesFilled: a and b are re-slicings [loA,hiA) and [loB,hiB) of buffers
+// that a CSPRNG fill (MustRand / rand.Read, dominating every success return)
+// covers; when they share the buffer the ranges are disjoint; nothing is stored
+// into the buffer(s) after the fill. Offsets are compared as linear terms.
+func c20RangesFilled(f *ssa.Function, a, b ssa.Value) (bool, bool) {
+	cx := bounds.NewCtx(f)
+	type rng struct {
+		base   ssa.Value
+		lo, hi bounds.Lin
+		toEnd  bool // every re-slicing on the way has no upper bound
+	}
+	rangeOf := func(v ssa.Value) rng {
+		base, lo := absSliceStart(cx, v)
+		toEnd := true
+		for x := guard.Strip(v); x != base; {
+			sl, ok := x.(*ssa.Slice)
+			if !ok {
+				break
+			}
+			if sl.High != nil {
+				toEnd = false
+			}
+			x = guard.Strip(sl.X)
+		}
+		return rng{base, lo, lo.Add(cx.LenOf(v), 1), toEnd}
+	}
+	lenIsCap := func(base ssa.Value) bool {
+		mk, ok := base.(*ssa.MakeSlice)
+		return ok && mk.Cap == mk.Len
+	}
+	var fills []*ssa.Call
+	allInstrs(f, func(ins ssa.Instruction) {
+		call, isC := ins.(*ssa.Call)
+		if !isC || len(call.Call.Args) == 0 {
+			return
+		}
+		nme := guard.CalleeName(&call.Call)
+		if !(strings.HasSuffix(nme, "internal/random.MustRand") || nme == "crypto/rand.Read") {
+			return
+		}
+		for _, ret := range guard.SuccessReturns(f) {
+			if !(call.Block() == ret.Block() || call.Block().Dominates(ret.Block())) {
+				return
+			}
+		}
+		fills = append(fills, call)
+	})
+	covered := func(r rng) bool {
+		for _, fc := range fills {
+			fr := rangeOf(fc.Call.Args[0])
+			if fr.base != r.base {
+				continue
+			}
+			if ok, _ := cx.Entails(nil, r.lo.Add(fr.lo, -1)); !ok {
+				continue
+			}
+			okHi := false
+			if fr.toEnd && lenIsCap(fr.base) {
+				okHi = true // the fill runs to the end of a buffer whose length is its capacity
+			} else if ok, _ := cx.Entails(nil, fr.hi.Add(r.hi, -1)); ok {
+				okHi = true
+			}
+			if !okHi {
+				continue
+			}
+			// nothing written into the buffer after the fill
+			clean := true
+			allInstrs(f, func(ins ssa.Instruction) {
+				if ins == ssa.Instruction(fc) || !guard.Reaches(fc, ins) {
+					return
+				}
+				switch x := ins.(type) {
+				case *ssa.Store:
+					if ia, isIA := x.Addr.(*ssa.IndexAddr); isIA {
+						if b2, _ := absSliceStart(cx, ia.X); b2 == r.base {
+							clean = false
+						}
+					}
+				case *ssa.Call:
+					if bi, isB := x.Call.Value.(*ssa.Builtin); isB && bi.Name() == "copy" {
+						if b2, _ := absSliceStart(cx, x.Call.Args[0]); b2 == r.base {
+							clean = false
+						}
+					}
+					nme := guard.CalleeName(&x.Call)
+					if strings.HasSuffix(nme, "internal/random.MustRand") || nme == "crypto/rand.Read" || nme == "io.ReadFull" {
+						return
+					}
+				}
+			})
+			if clean {
+				return true
+			}
+		}
+		return false
+	}
+	ra, rb := rangeOf(a), rangeOf(b)
+	okA, okB := covered(ra), covered(rb)
+	if ra.base == rb.base {
+		d1, _ := cx.Entails(nil, rb.lo.Add(ra.hi, -1))
+		d2, _ := cx.Entails(nil, ra.lo.Add(rb.hi, -1))
+		if !d1 && !d2 {
+			okB = false
+		}
+	}
+	return okA, okB
+}
+
+// c20DrawsFresh: every success return of f is dominated by a draw from the
+// CSPRNG: a call taking the crypto/rand reader, rand.Read, GetRandomBytes, a
+// key-pair generator, Encapsulate(), a generator hook whose production value is
+// a real generator — or a helper of the same package that itself draws on each
+// of its success paths (two levels).
+func c20DrawsFresh(p *core.Program, f *ssa.Function, depth int) bool {
+	var srcs []*ssa.Call
+	allInstrs(f, func(ins ssa.Instruction) {
+		call, ok := ins.(*ssa.Call)
+		if !ok {
+			return
+		}
+		nm := guard.CalleeName(&call.Call)
+		isSrc := false
+		for _, arg := range call.Call.Args {
+			if isRandReader(arg) {
+				isSrc = true
+			}
+		}
+		if strings.HasSuffix(nm, ".Encapsulate") || strings.HasSuffix(nm, "random.GetRandomBytes") || nm == "crypto/rand.Read" || strings.HasSuffix(nm, "GeneratePrivateKeyX25519") || strings.HasSuffix(nm, "GenerateECDHKeyPair") {
+			isSrc = true
+		}
+		// generator reached through a function-typed field or package variable (test hook): its
+		// production value must be a real generator
+		if !isSrc && call.Call.StaticCallee() == nil && !call.Call.IsInvoke() {
+			if _, fld, isF := guard.FieldOf(call.Call.Value); isF && strings.Contains(strings.ToLower(fld), "generate") {
+				isSrc = true
+			}
+			if u, isU := call.Call.Value.(*ssa.UnOp); isU {
+				if g, isG := u.X.(*ssa.Global); isG && hookIsGenerator(p, g) {
+					isSrc = true
+				}
+			}
+		}
+		if !isSrc && depth < 2 {
+			if h := call.Call.StaticCallee(); h != nil && h != f && h.Blocks != nil && h.Pkg == f.Pkg && c20DrawsFresh(p, h, depth+1) {
+				isSrc = true
+			}
+		}
+		if isSrc {
+			srcs = append(srcs, call)
+		}
+	})
+	rets := guard.SuccessReturns(f)
+	if depth > 0 && len(rets) == 0 {
+		// a helper without an error result: every return counts
+		rets = guard.Returns(f)
+	}
+	fresh := len(rets) > 0
+	for _, ret := range rets {
+		ok := false
+		for _, call := range srcs {
+			if call.Block() == ret.Block() || call.Block().Dominates(ret.Block()) {
+				ok = true
+			}
+		}
+		if !ok {
+			fresh = false
+		}
+	}
+	return fresh
 }
